@@ -4,7 +4,7 @@
 # Nothing is committed to /repo.  Output: seeded/SWEEP.tsv
 cd /verif
 if [ -n "$(git -C /repo status --porcelain)" ]; then echo "/repo is not clean"; exit 2; fi
-sel="$@"; [ -z "$sel" ] && sel=$(ls seeded | grep -- '-m')
+sel="$@"; [ -z "$sel" ] && sel=$(for d in $(ls seeded | grep -- "-m"); do [ -e seeded/$d/SUPERSEDED ] || echo $d; done)
 for s in $sel; do
   id=${s%%-*}
   if ! git -C /repo apply --check /verif/seeded/$s/patch.diff 2>/dev/null; then echo -e "$s\t$id\tPATCH-DOES-NOT-APPLY"; continue; fi
